@@ -457,6 +457,85 @@ def c17_inter(fam: int, m: int, c: C3, perm: int, optim: int, d0: int, d1: int, 
 
 
 # ----------------------------------------------------------------------------------------
+# intersection with an automaton that has epsilon moves (the padding rules of FST.intersection)
+
+EPS_SHAPES = [
+    # (edges (p, symbol | None for epsilon, q), starts, finals)
+    ([(0, "a", 1), (1, None, 2)], [0], [2]),                   # a, accepted after a trailing epsilon move
+    ([(0, None, 1), (1, "a", 2)], [0], [2]),                   # a leading epsilon move
+    ([(0, "a", 1), (1, None, 2), (2, "a", 2)], [0], [2]),      # a a*
+    ([(0, "a", 1), (1, None, 0)], [0], [1]),                   # a+ through an epsilon back edge
+    ([(0, None, 1)], [0], [1]),                                # the empty word only
+]
+
+
+def build_enfa(edges, st, fi):
+    from pyformlang.finite_automaton import EpsilonNFA
+    fa = EpsilonNFA()
+    for p, a, q in edges:
+        fa.add_transition(p, "epsilon" if a is None else a, q)
+    for q in st:
+        fa.add_start_state(q)
+    for q in fi:
+        fa.add_final_state(q)
+    return fa
+
+
+def ref_enfa(edges, st, fi):
+    ref = ONFA.Ref(starts=st, finals=fi)
+    for p, a, q in edges:
+        if a is None:
+            ref.add_eps(p, q)
+        else:
+            ref.add(p, a, q)
+    return ref
+
+
+def _inter_eps_oracle(args, obs):
+    rules, order, optim, shape = args
+    edges, st, fi = EPS_SHAPES[shape]
+    tags = input_tags(rules, optim) + ["automaton_has_epsilon_moves"]
+    want = O.intersection_is_empty(rules, ref_enfa(edges, st, fi), "S")
+    fails = []
+    res = obs
+    if res[0] == "exc":
+        fails.append(chx.exc_failure("intersection", res, tags=tags))
+    else:
+        got_empty, truth, grammar = res[1]
+        if got_empty != want:
+            fails.append(verdict_failure("intersection.is_empty", got_empty, want, tags))
+        if (not truth) != want:
+            fails.append(verdict_failure("bool(intersection)", not truth, want, tags))
+    note = {"rules_in_order": [rules[i] for i in order], "optim": optim,
+            "enfa": {"edges": edges, "start": st, "finals": fi}, "reference_intersection_empty": want}
+    return nontrivial_grammar(rules), fails, note
+
+
+def c17_inter_eps(fam: int, m: int, c: C3, perm: int, optim: int, shape: int, ng: int, grp: int) -> bool:
+    """
+    pre: pinned(fam=fam, m=m, perm=perm, optim=optim, shape=shape, ng=ng, grp=grp, c0=c[0])
+    pre: family_ok(fam, c, m, ng, grp)
+    pre: between(0, optim, 7) & index_ok(perm, m) & between(0, shape, 4)
+    post: _
+    """
+    fm, mm, rules, cc = decode_rules(fam, c, m)
+    pi = enc.pick(perm, FACT[mm])
+    order = list(enc.PERMS[mm][pi])
+    op = enc.pick(optim, 8)
+    sh = enc.pick(shape, 5)
+    gn = pick_bin(ng, NG_MAX + 1)
+    raw = (fm, mm, cc, pi, op, sh, gn, sum(cc) % gn)
+    chx.enter("c17_inter_eps", raw)
+    ordered = [rules[i] for i in order]
+    _STUB.order = None
+    edges, st, fi = EPS_SHAPES[sh]
+    fa = build_enfa(edges, st, fi)
+    obs = chx.guarded(_run_inter, ordered, op, fa)
+    return chx.judge("C17", "c17_inter_eps", raw, (rules, order, op, sh), obs, _inter_eps_oracle,
+                     realize_obs=False)
+
+
+# ----------------------------------------------------------------------------------------
 # shards (every shard pins fam, m, ng, grp; sizes: <= ~1300 inputs quick, <= ~3300 thorough)
 
 def _multisets(fam, m):
@@ -569,7 +648,8 @@ CH_TEXT = ("CrossHair configuration local to C17 workers: the set/frozenset/dict
 ASSUME = ["start variable is the default 'S' (rule_ordering and FST.intersection hard-code it)",
           "pyformlang.regular_expression has been imported before IndexedGrammar.intersection is called "
           "(the method reads it as a package attribute without importing it; the library's tests import it)",
-          "regular languages are given as DeterministicFiniteAutomaton objects with <= 2 states over {a} "
+          "regular languages are given as DeterministicFiniteAutomaton objects with <= 2 states over {a}, and in "
+          "c17_inter_eps as EpsilonNFA objects with 2-3 states and epsilon moves "
           "(Regex operands make the library's own emptiness run for minutes natively: a* on S->a, S->SS = 75 s)",
           CH_TEXT]
 
@@ -674,5 +754,15 @@ CONDS = [
     Cond("C17", c17_inter, _shards_inter, {"quick": Q_INTER, "thorough": T_INTER},
          FUNCS_INTER, "non-trivial grammar and a DFA with a start state, a final state and an edge",
          stubs=[], assumptions=ASSUME, per_path_timeout=600.0,
+         shard_timeout={"quick": 1500, "thorough": 6000}),
+    Cond("C17", c17_inter_eps,
+         lambda tier: product_pins(fam=[4], m=[2], ng=[2], grp=[0, 1], optim=[0], perm=[0],
+                                   shape=[0, 2, 3] if tier == "quick" else [0, 1, 2, 3, 4]) +
+         ([] if tier == "quick" else product_pins(fam=[4], m=[2], ng=[2], grp=[0, 1], optim=[7], perm=[1], shape=[0, 2, 3])),
+         {"quick": "all 210 pairs of rules over {S,A} x {f} x {a, epsilon} x 3 automata WITH epsilon moves (a then a "
+                   "trailing epsilon move; a a*; a+ through an epsilon back edge), given as EpsilonNFA: "
+                   "intersection(..).is_empty() and bool() against the O-IG product",
+          "thorough": "5 automata (also a leading epsilon move, the empty word only); optim 7 with the reversed rule order"},
+         FUNCS_INTER, "non-trivial grammar", stubs=[], assumptions=ASSUME, per_path_timeout=600.0,
          shard_timeout={"quick": 1500, "thorough": 6000}),
 ]
